@@ -126,6 +126,10 @@ def o_seed(a):
     src = xPointSource('p', 30., 45., lambda E, t: S(E, numpy.asarray(t) - a['t0']), constant(0.3), constant(0.5), column_density=a.get('nH', 0.), redshift=a.get('z', 0.))
     irf_set = load_irf_set(IRF, a.get('du', 1))
     gtis = [(a['t0'], a['t0'] + 0.3 * a['T']), (a['t0'] + 0.5 * a['T'], a['t0'] + 0.9 * a['T'])]
+    if a.get('gti_layout') == 'late-first':          # good time neither starts with the observation nor ends with it
+        gtis = [(a['t0'] + 0.2 * a['T'], a['t0'] + 0.4 * a['T']), (a['t0'] + 0.5 * a['T'], a['t0'] + 0.8 * a['T'])]
+    elif a.get('gti_layout') == 'unordered':         # a list that is not in chronological order
+        gtis = [gtis[1], gtis[0]]
     kwargs = simdrive.sim_kwargs(simdrive.config_path('toy_point_source.py'), 'unused.fits', gtis=gtis, start_met=a['t0'], duration=a['T'])
     roi = type('R', (), dict(ra=30., dec=45.))()
     tap = rngtap.Tap()
@@ -144,9 +148,10 @@ def o_seed(a):
     if not ingti.all():
         bad.append('%d events outside the GTIs' % int((~ingti).sum()))
     n = int(numpy.rint(norm))
-    frac = sum(y - x for x, y in gtis) / a['T']
-    if a['kind'] == 'pl' and abs(len(t) / max(n, 1) - frac) > 0.02:
-        bad.append('%d of %d events kept by GTIs covering %.2f of the window' % (len(t), n, frac))
+    # the share of the light curve inside the union of the intervals (the energy-integrated count rate, integrated)
+    frac = sum(float(cs.light_curve.integral(x, y)) for x, y in gtis) / norm
+    if abs(len(t) / max(n, 1) - frac) > 0.02:
+        bad.append('%d of %d events kept by GTIs %s holding %.3f of the light curve' % (len(t), n, [(x - a['t0'], y - a['t0']) for x, y in gtis], frac))
     return not bad, dict(violated=bad, poisson_mean=lam, norm=norm, kept=len(t))
 
 
@@ -370,6 +375,7 @@ def explore(chk, budget=1):
         a = gen_spec(g)
         a['kind'] = str(g.choice(['pl', 'pl_t']))
         a['norm'] = float(g.uniform(5., 30.))
+        a['gti_layout'] = ['default', 'late-first', 'unordered'][i % 3]
         run_oracle(chk, 'seed', a)
     for du in ((int(g.integers(1, 4)),) if quick else (1, 2, 3)):
         run_oracle(chk, 'vign', dict(du=du, seed=int(g.integers(1, 10 ** 6))))
